@@ -255,7 +255,7 @@ def main(ck):
                                'object + f-string raises TypeError instead of calling __add__/__radd__ in\n%s' % f[1], w)
                 continue
             same_outcome = m['exp'][:2] == m['got'][:2] or (m['exp'][0] == 'exc' and m['exp'][:2] == m['got'][:2])
-            if i is not None or not (mechs and same_outcome):
+            if i is not None or not same_outcome:
                 a = le[i] if i is not None and i < len(le) else None
                 b = lg[i] if i is not None and i < len(lg) else None
                 w2 = dict(w, first_unexplained_divergence=[i, a, b])
@@ -266,6 +266,9 @@ def main(ck):
             f = byname[c['case']['f']]
             main_l = '+'.join(sorted(l for l in f[2] if l.startswith(('stmt-', 'typed-')))[:3])
             ckey = 'eval:crash:%s' % main_l
+            if {'in-literal', 'not', 'boolop', 'condexpr'} <= set(f[2]) and 'Segmentation fault' in (c['stderr'] or ''):
+                # (1 if a else (b or (not c) or (x in (f(), g())))) segfaults
+                ckey = 'eval:condexpr-with-or-chain-of-not-and-in-literal:segfault'
             if 'PyUnicode_Check(op)' in (c['stderr'] or '') and 'fstring' in f[2]:
                 # AddNode assumes `x + f'..'` / `x += f'..'` is a str concatenation whatever x is
                 ckey = 'eval:non-str-operand-concatenated-with-fstring:abort'
